@@ -394,3 +394,47 @@ def rand_mesh(rng, size, specs=None):
     g = Geom(True, npnt, faces, atts)
     g.family = fam
     return g
+
+
+def rand_wall_mesh(rng, n=None):
+    """extrusion along z of a polyline in the xy plane (faces parallel to the z axis) with per-vertex
+    normals tilted off the face normal and optionally facing the back side of the winding"""
+    n = n or rng.randint(2, 8)
+    ang = rng.random() * 6.283
+    import math
+    pts = []
+    x, y = 0.0, 0.0
+    for i in range(n + 1):
+        pts.append((x, y))
+        ang += rng.choice([0.0, 0.0, 0.3, -0.4])
+        x += math.cos(ang)
+        y += math.sin(ang)
+    h = rng.randint(1, 3)
+    pos, faces = [], []
+    for j in range(h + 1):
+        for (px, py) in pts:
+            pos.append((px, py, float(j)))
+    w = n + 1
+    back = rng.random() < 0.5
+    for j in range(h):
+        for i in range(n):
+            a, b, c, d = j * w + i, j * w + i + 1, (j + 1) * w + i, (j + 1) * w + i + 1
+            faces += [(a, b, c), (b, d, c)]
+    nv = len(pos)
+    normals = []
+    tilt = rng.choice([0.0, 0.2, 0.35])
+    for k in range(nv):
+        i = min(k % w, n - 1)
+        dx, dy = pts[i + 1][0] - pts[i][0], pts[i + 1][1] - pts[i][1]
+        nx, ny, nz = dy, -dx, tilt * rng.choice([1.0, -1.0])
+        if back:
+            nx, ny, nz = -nx, -ny, -nz
+        l = math.sqrt(nx * nx + ny * ny + nz * nz) or 1.0
+        normals.append((nx / l, ny / l, nz / l))
+    scale = rng.choice([1.0, 10.0, 0.37])
+    pv = b"".join(struct.pack("<fff", *(f32(c * scale) for c in p)) for p in pos)
+    nvb = b"".join(struct.pack("<fff", *(f32(c) for c in nrm)) for nrm in normals)
+    g = Geom(True, nv, faces, [Attr(POSITION, DT["f32"], 3, False, 0, nv, None, pv),
+                               Attr(NORMAL, DT["f32"], 3, False, 1, nv, None, nvb)])
+    g.family = "wall"
+    return g
